@@ -31,7 +31,7 @@ type cancelReq struct {
 // without returning, or stays blocked outside any yield point for this many
 // scheduler steps (and maxCancelWait of simulated time).
 const (
-	maxCancelParks = 150
+	maxCancelParks = 400
 	maxCancelSteps = 300
 	maxCancelWait  = 30 * time.Second
 )
